@@ -3,3 +3,4 @@ import CatiiModel.Gen.FitDtype
 import CatiiModel.Gen.Consts
 import CatiiModel.Kernels
 import CatiiModel.Indx
+import CatiiModel.Cube
